@@ -182,6 +182,7 @@ class ProviderTap:
         self.after_plan = None          # callable(tap, write_index, op) -> exception or None (raised AFTER the op took effect)
         self.crash_after = None         # die after the k-th engine write (global index in world.engine_writes)
         self.corrupt = None             # callable(oid, path) -> bool: engine download raises CloudCorruptError
+        self.torn = None                # callable(oid, path) -> bool: engine download breaks off after half of the bytes
         self.mangler = None             # callable(iterator_of_events) -> iterator
         self.perm_fail = None           # callable(op, path_before, path_target) -> exception or None (engine ctx)
         self.yielded = set()            # cursor indices of events handed to the engine and not yet processed by it
@@ -220,7 +221,8 @@ class ProviderTap:
                 raise Crash("dead")
             if not engine and not is_write:
                 return orig(*args, **kwargs)
-            if engine and not is_write and not world.record_reads and tap.corrupt is None and tap.perm_fail is None:
+            if engine and not is_write and not world.record_reads and tap.corrupt is None and tap.perm_fail is None \
+                    and tap.torn is None:
                 # fast path for engine reads
                 tap.depth += 1
                 tap.op_api = 0
@@ -275,6 +277,12 @@ class ProviderTap:
                 rec["ev"] = len(tap.prov._events) - nev     # provider events registered = the call was effective
                 if buf is not None:
                     rec["data"] = buf.getvalue()
+                    if engine and tap.torn is not None and len(rec["data"]) > 1 and tap.torn(args[0], rec.get("path")):
+                        # the transfer breaks off half way: the caller's handle has received the first half
+                        real_out.write(rec["data"][:len(rec["data"]) // 2])
+                        world.injected.append({"kind": "torn_download", "side": tap.side, "path": rec.get("path"),
+                                               "seq": rec["seq"]})
+                        raise ex.CloudTemporaryError("injected: download of %s broke off half way" % rec.get("path"))
                     real_out.write(rec["data"])
                 if name == "rename":
                     rec["new_oid"] = ret
